@@ -48,6 +48,7 @@ TraceGet ==
     /\ last'.v = Ev.v /\ last'.ok = Ev.ok /\ last'.h = Ev.h
     /\ ObsOK
 TraceRemove == IsEvent("Remove") /\ Remove(Ev.k) /\ ObsOK
+TraceClear == IsEvent("Clear") /\ Clear /\ ObsOK
 TraceRelease == IsEvent("Release") /\ Release(Ev.h, Ev.evict) /\ ObsOK
 TraceTimerFire == IsEvent("TimerFire") /\ TimerFire(Ev.v) /\ ObsOK
 TraceTimerEvict == IsEvent("TimerEvict") /\ TimerEvict(Ev.v) /\ ObsOK
@@ -61,7 +62,7 @@ TraceTimer ==
     /\ ObsOK
 
 TraceNext ==
-    \/ TraceReset \/ TraceAdd \/ TraceGet \/ TraceRemove \/ TraceRelease
+    \/ TraceReset \/ TraceAdd \/ TraceGet \/ TraceRemove \/ TraceClear \/ TraceRelease
     \/ TraceTimerFire \/ TraceTimerEvict \/ TraceTimer
 
 TraceSpec == TraceInit /\ [][TraceNext]_tvars
